@@ -17,7 +17,7 @@ pub fn edge_driver(out: &str, seed: u64, n: u64) {
     let mut r = Recorder::new(&format!("{}/edge.trace", out), base_setup());
     let (mut nbk, mut nkill, mut nclose, mut nutil) = (0u64, 0u64, 0u64, 0u64);
     for k in 0..n {
-        match k % 11 {
+        match k % 12 {
             0 => {
                 // ---- exact wipe: the sole borrower drew every deposited token (or all but delta), no fees, no time (or a
                 // second), empty or tiny insurance; collateral made worthless; bankruptcy. Uncovered loss =, <, > deposits.
@@ -25,7 +25,7 @@ pub fn edge_driver(out: &str, seed: u64, n: u64) {
                 let x: u64 = *pick(&mut rng, &[1_000_000u64, 123_456_789, 7, 50_000_000_000]);
                 // (loss = deposits, deposits - 1, deposits - 2; insurance empty, a unit, half, all, more than the debt)
                 let combos: [(u64, u64); 8] = [(0, 0), (1, 0), (0, 1), (0, x.saturating_add(5)), (2, 0), (0, x / 2), (0, x.saturating_mul(3)), (1, x)];
-                let (delta, ins) = combos[((k / 11) % 8) as usize];
+                let (delta, ins) = combos[((k / 12) % 8) as usize];
                 let two_lenders = rng.gen_bool(0.4);
                 let mut extra = vec![];
                 plain_bank("D1", dec, "spl", "1", json!({"ir":{"orig_fee":"0"}}), &mut extra);
@@ -512,7 +512,7 @@ pub fn edge_driver(out: &str, seed: u64, n: u64) {
                 extra.push(json!({"op":"fund","user":"U1","mint":"M.D1","amount":"4000000000000000000"}));
                 extra.push(json!({"op":"fund","user":"U1","mint":"M.C1","amount":"4000000000000000000"}));
                 r.begin(&extra);
-                let below = (k / 11) % 2 == 0;
+                let below = (k / 12) % 2 == 0;
                 r.act(json!({"op":"deposit","acct":"LP","bank":"D1","amount":50_000_000}));
                 r.act(json!({"op":"deposit","acct":"A1","bank":"C1","amount":1_000_000_000}));
                 r.act(json!({"op":"deposit","acct":"A1","bank":"D1","amount":1000}));
@@ -539,6 +539,42 @@ pub fn edge_driver(out: &str, seed: u64, n: u64) {
                     r.act(json!({"op":"deposit","acct":"A1","bank":"D1","amount":7}));
                     r.act(json!({"op":"withdraw","acct":"A1","bank":"D1","amount":0,"all":true}));
                 }
+            }
+            11 => {
+                // ---- both limits finite with the borrow limit at or above the deposit limit, deposits already beyond both (the
+                // admin lowered the deposit limit under the current deposits): the borrow limit still binds - largest accepted
+                // borrow by bisection, the amounts around it recorded
+                let mut extra = vec![];
+                plain_bank("D1", 6, "spl", "1", json!({"ir":{"orig_fee": *pick(&mut rng, &["0", "0.01"])}}), &mut extra);
+                plain_bank("C1", 6, "spl", "1", json!({"aw_init":"1","aw_maint":"1"}), &mut extra);
+                extra.push(json!({"op":"fund","user":"U9","mint":"M.D1","amount":"4000000000000000000"}));
+                extra.push(json!({"op":"fund","user":"U1","mint":"M.C1","amount":"4000000000000000000"}));
+                r.begin(&extra);
+                let dep: u64 = *pick(&mut rng, &[9_000_000_000u64, 77_000_000]);
+                r.act(json!({"op":"deposit","acct":"LP","bank":"D1","amount":dep}));
+                r.act(json!({"op":"deposit","acct":"A1","bank":"C1","amount":"1000000000000000000"}));
+                let dl = dep / 9;
+                let bl = match rng.gen_range(0..3) { 0 => dl, 1 => dl * 5, _ => dl + 1 };
+                r.act(json!({"op":"configure_limits","bank":"D1","deposit_limit":dl.to_string(),"borrow_limit":bl.to_string()}));
+                if rng.gen_bool(0.5) {
+                    r.act(json!({"op":"borrow","acct":"A1","bank":"D1","amount": bl / 3}));
+                    r.act(json!({"op":"tick","dt": 86_400i64}));
+                    r.act(json!({"op":"accrue","bank":"D1"}));
+                }
+                let mkb = |x: u64| json!({"op":"borrow","acct":"A1","bank":"D1","amount":x});
+                if let Some((lo, hi)) = search_boundary(&mut r, &mkb, dep, "BankLiabilityCapacityExceeded") {
+                    for amt in [hi + 1, hi, lo] {
+                        if amt > 0 {
+                            r.fork(&mut |r: &mut Recorder| {
+                                r.act(mkb(amt));
+                            });
+                        }
+                    }
+                } else {
+                    r.act(mkb(bl));
+                    r.act(mkb(bl.saturating_add(bl / 5)));
+                }
+                r.act(json!({"op":"deposit","acct":"LP","bank":"D1","amount":1000}));
             }
             _ => {
                 // ---- a solvent account in a collateral bank whose collateral-value cap is lowered far below its deposits
